@@ -98,6 +98,26 @@ func (x *Exec) callValue(st *State, fr *Frame, fnv Value, args []Value, call *ss
 		}
 	}
 	x.safetyCheck(st, "nil", mkNot(mkEq(fnv.S, "0")), pos)
+	// a call of a function-typed parameter of the unit: call-site obligations may be attached
+	// to it as "callassert param.<name> ..."
+	if call != nil && fr.depth == 0 {
+		pname := ""
+		if pr, ok := call.Value.(*ssa.Parameter); ok {
+			pname = pr.Name()
+		} else if u, ok := call.Value.(*ssa.UnOp); ok {
+			// naive form: the parameter was spilled into a local of the same name
+			if a, ok := u.X.(*ssa.Alloc); ok {
+				for _, pr := range fr.fn.Params {
+					if pr.Name() == a.Comment {
+						pname = pr.Name()
+					}
+				}
+			}
+		}
+		if pname != "" {
+			x.callAsserts(st, fr, "param."+pname, args, paramNames(sig, nil), pos)
+		}
+	}
 	// a value of a named function type: a contract keyed by the type applies
 	if n, ok := fnv.T.(*types.Named); ok {
 		key := qualName(n)
